@@ -11,7 +11,7 @@ fn main() {
     let cap = if quick { 1_000_000 } else { 60_000_000 };
     ctx.run_slice(Slice::new(format!("round-trips[{} first {}]", spec.name(), cap.min(u.count())), u.count().min(cap), |i, loc| check_roundtrip_strict(&u.get_open(i), loc)));
     // pairs of label-consistent lax diagrams
-    let (lspec, rspec) = if quick { (Spec::lax(2, 1, 1, 2, 1, 1, 2, 1), Spec::lax(2, 1, 1, 2, 1, 2, 1, 1)) } else { (Spec::lax(2, 1, 2, 2, 2, 2, 2, 1), Spec::lax(2, 1, 2, 2, 2, 2, 2, 1)) };
+    let (lspec, rspec) = if quick { (Spec::lax(2, 1, 1, 2, 1, 1, 2, 1), Spec::lax(2, 1, 1, 2, 1, 2, 1, 1)) } else { (Spec::lax(2, 1, 2, 2, 1, 1, 2, 1), Spec::lax(2, 1, 2, 2, 1, 2, 1, 1)) };
     let all: Vec<PLax<u8, u8>> = lspec.universe().all().into_iter().filter(|l| l.label_consistent()).collect();
     let allr: Vec<PLax<u8, u8>> = rspec.universe().all().into_iter().filter(|l| l.label_consistent()).collect();
     let n = allr.len() as u64;
